@@ -385,6 +385,16 @@ def fresh_like(t, base):
     return (torch.arange(n, dtype=dt()) + base + 1).reshape(tuple(t.shape))
 
 
+def own_order(td):
+    """leaf paths in the receiver's own iteration order (the ternary family pairs operands by position: C09's D18)"""
+    out = []
+    for k in unwrap(td).keys(True, True):
+        k = k if isinstance(k, tuple) else (k,)
+        if k in set(leafpaths(td)):
+            out.append(k)
+    return out
+
+
 def src_for(td, paths, base, as_dict=False, order_rev=False):
     """a source tensordict (or nested dict) with the given td-level leaf paths, fresh values, td's batch size"""
     TD = T()["TD"]
@@ -547,7 +557,7 @@ for _n in AUG:
 
 @op("addcmul_", "addcmul_", "inplace")
 def _addcmul_(td, rng):
-    paths = leafpaths(td)
+    paths = own_order(td)
     if not paths:
         return None
     o1, v1 = src_for(td, paths, 2)
@@ -558,7 +568,7 @@ def _addcmul_(td, rng):
 
 @op("addcdiv_", "addcdiv_", "inplace")
 def _addcdiv_(td, rng):
-    paths = leafpaths(td)
+    paths = own_order(td)
     if not paths:
         return None
     o1, v1 = src_for(td, paths, 2)
@@ -571,7 +581,7 @@ def _addcdiv_(td, rng):
 
 @op("lerp_", "lerp_", "inplace")
 def _lerp_(td, rng):
-    paths = leafpaths(td)
+    paths = own_order(td)
     if not paths:
         return None
     o1, v1 = src_for(td, paths, 2)
@@ -745,6 +755,14 @@ def _index_for_write(td, rng):
     if not bs:
         return None
     idx, basic = gen_index(bs, rng, adv=rng.random() < 0.4)
+    if isinstance(unwrap(td), T()["Lazy"]):
+        # the placement of indexed writes on a lazy stack with None in the index is C08's subject (finding D35)
+        if isinstance(idx, tuple):
+            idx = tuple(i for i in idx if i is not None) or slice(None)
+            if isinstance(idx, tuple) and len(idx) == 1:
+                idx = idx[0]
+        elif idx is None:
+            idx = slice(None)
     return idx
 
 
@@ -895,7 +913,7 @@ for _dn, _f in [("__add__", lambda x: x + 3.0), ("__radd__", lambda x: 3.0 + x),
 
 @op("addcmul", "addcmul", "copy")
 def _addcmul(td, rng):
-    paths = leafpaths(td)
+    paths = own_order(td)
     if not paths:
         return None
     o1, _ = src_for(td, paths, 2)
@@ -905,7 +923,7 @@ def _addcmul(td, rng):
 
 @op("addcdiv", "addcdiv", "copy")
 def _addcdiv(td, rng):
-    paths = leafpaths(td)
+    paths = own_order(td)
     if not paths:
         return None
     o1, _ = src_for(td, paths, 2)
@@ -915,7 +933,7 @@ def _addcdiv(td, rng):
 
 @op("lerp", "lerp", "copy")
 def _lerp(td, rng):
-    paths = leafpaths(td)
+    paths = own_order(td)
     if not paths:
         return None
     o1, _ = src_for(td, paths, 2)
@@ -1612,6 +1630,7 @@ STRICT_COPY = {"clone", "to_tensordict"}
 # layout-dependent results not named by the property: observed and compared with the model, not demanded
 WEAK_RULE = {"reshape", "flatten", "to:same", "apply:identity"}
 LAZY_MATERIALISING = {"expand", "flatten_keys", "unflatten_keys", "split_keys"}
+VALUES_LIST_FAMILY = set(UNARY_EXACT) | set(UNARY_INEXACT) | set(BINARY) | set(AUG) | {"addcmul_", "addcdiv_", "lerp_", "zero_", "fill_"}
 SUB_INPLACE_BY_DESIGN = {"set:rebind", "update:rebind", "replace", "setdefault", "cat_tensors"}
 OPS_BY_NAME = {o.name: o for o in OPS}
 
@@ -1738,6 +1757,8 @@ def _run_case(case, fx):
     written = U.written()
     sig0 = {"op": opx.name, "method": opx.method, "cls": cls, "kind": fx.spec["kind"], "layout": fx.spec["layout"],
             "sub_index_advanced": _sub_adv(fx),
+            # the in-place families that run a kernel on self._values_list / self.get(key) (not through _set_str / _set_at_str)
+            "values_list_family": opx.method in VALUES_LIST_FAMILY,
             "lazy_materialising_op": fx.spec["kind"] == "lazy" and opx.method in LAZY_MATERIALISING,
             "sub_select_exclude": fx.spec["kind"] == "sub" and opx.method in ("select", "exclude")}
 
